@@ -149,3 +149,31 @@ Theorem circuit_result_roundtrip : forall (St Pr Sa Fr : Type) (draw : Pr -> Z -
   /\ (forall s, mo_samples _ _ _ (cr_mo _ _ _ _ r) = Some s -> mo_samples _ _ _ (cr_mo _ _ _ _ r') = Some s).
 Proof. exact cr_roundtrip. Qed.
 Print Assumptions circuit_result_roundtrip.
+
+(* ---- Circuit.raw / Circuit.from_dict ------------------------------------------------------------ *)
+(* For every circuit built by Circuit.add from gates whose own dictionary round-trips (raw_roundtrip_<C>,
+   generated; measurement gates: M_raw_dict_roundtrip below) the dictionary of the circuit is re-imported to
+   the same queue (class, qubits, parameters, register names, collapse flags), the same pending
+   measurements, n and density_matrix.  PARTIAL: measurement gates must not add basis rotations
+   (basis Z only) -- refuted otherwise (circuit_dict_roundtrip_refuted). *)
+Theorem circuit_dict_roundtrip_partial : forall rotation required rows bases n dm gs c,
+  build rotation n dm gs = OK c ->
+  Forall (fun g => basis_gates rotation g = []
+                   /\ exists g', from_dict rows bases (raw required g) = OK g' /\ gsame g g') gs ->
+  exists c', cfrom_dict rows bases rotation (craw required c) = OK c' /\ circ_rel c c'.
+Proof. exact circuit_dict_roundtrip_main. Qed.
+Print Assumptions circuit_dict_roundtrip_partial.
+
+Example circuit_dict_roundtrip_partial_nonvacuous :
+  build ex_rotation 3 false ex_gs = OK ex_c
+  /\ Forall (fun g => basis_gates ex_rotation g = []
+                      /\ exists g', from_dict ex_rows ex_bases (raw ex_required g) = OK g' /\ gsame g g') ex_gs.
+Proof. exact ex_dict_hyp. Qed.
+
+(* a measurement gate as its constructor builds it is reproduced exactly by from_dict (raw g) *)
+Theorem M_raw_dict_roundtrip : forall rows bases required rotation,
+  M_tables_ok rows bases rotation -> forallb (fun k => mem_str k required) M_keys = true ->
+  forall r pos kw g, find_row "M" rows = Some r -> construct bases r pos kw = OK g ->
+  from_dict rows bases (raw required g) = OK g.
+Proof. exact M_raw_roundtrip. Qed.
+Print Assumptions M_raw_dict_roundtrip.
